@@ -8,6 +8,10 @@ package scen
 // node of the destination.
 
 import (
+	"net/http"
+	"net/http/httptest"
+	"strings"
+	"github.com/Oudwins/zog/zhttp"
 	"fmt"
 	"reflect"
 
@@ -60,8 +64,15 @@ func c12Scenario(a *Alpha, ns NamedSkel, focus []string, elems int) mc.Scenario 
 		opts := []z.ExecOption{z.WithCtxValue("k1", "v1"), z.WithCtxValue("k2", 2)}
 		ctxStr := "k1=v1,k2=2,k3=<nil>,lang=<nil>"
 		if len(focus) <= 1 {
-			cv := x.Choose(6, "ctxValues")
+			cv := x.Choose(7, "ctxValues")
 			switch cv {
+			case 6:
+				// what the process did before: a top-level optional record was fed a request whose body cannot be decoded
+				// (whatever that execution recycled is what this one is built from)
+				var gone *struct{ A string }
+				req := httptest.NewRequest(http.MethodPost, "/", strings.NewReader(`{"a":`))
+				req.Header.Set("Content-Type", "application/json")
+				z.Ptr(z.Struct(z.Schema{"a": z.String()})).Parse(zhttp.Request(req), &gone)
 			case 4, 5:
 				// i18n installed; the call names a language that is not installed (4) or none (5): messages fall back to the
 				// default language, but what callbacks read from the context stays exactly what the call passed
